@@ -49,7 +49,7 @@ def native_replay(unit, task_id, vals, scratch):
     exe = os.path.join(d, 'replay_' + unit['name'])
     if not os.path.exists(exe):
         cmd = ['g++', '-std=c++11', '-O1', '-g', '-w', '-DCOLVARS_VERIF', '-I', os.path.join(core.REPO, 'src'),
-               '-I', os.path.join(core.SPECS, 'common'), '-I', os.path.join(core.REPO, 'misc_interfaces', 'stubs'),
+               '-I', os.path.join(core.SPECS_MAIN, 'common'), '-I', os.path.join(core.REPO, 'misc_interfaces', 'stubs'),
                drv, lib, '-o', exe]
         rc, out, dt = core.run(cmd, 600)
         if rc != 0:
